@@ -12,6 +12,7 @@ import (
 	"math"
 	"strconv"
 	"strings"
+	"sync"
 )
 
 func init() {
@@ -48,7 +49,7 @@ func init() {
 
 func (ip *Interp) writeTo(fr *frame, w Value, s Value) Value {
 	wi := w.(Iface)
-	if wi.t != nil && wi.t.String() == "*strings.Builder" {
+	if wi.t != nil && isStringsBuilderPtr(wi.t) {
 		intrinsics["(*strings.Builder).WriteString"](ip, fr, []Value{wi.v, s})
 		return Tuple{Const(64, uint64(ip.approxLen(s))), Iface{}}
 	}
@@ -313,3 +314,14 @@ func (ip *Interp) stringMethod(fr *frame, a Iface) (Value, bool) {
 }
 
 var _ = strconv.Itoa
+
+var sbTypeCache sync.Map
+
+func isStringsBuilderPtr(t types.Type) bool {
+	if v, ok := sbTypeCache.Load(t); ok {
+		return v.(bool)
+	}
+	r := t.String() == "*strings.Builder"
+	sbTypeCache.Store(t, r)
+	return r
+}
